@@ -41,6 +41,16 @@ CHECKS = {
              "FieldDataComparator/MeshFieldsComparator by T1 truthiness tables and differential runs on tabular and mesh field data.",
         note=TB + "fnmatch is an oracle (boolean filter tables are handed to the model); names within one data set are distinct.",
         technique="Coq proof of the comparator model + model/implementation correspondence", ref="7 (C11)"),
+    "C04": dict(
+        text="Theorem C04_cli_exit_iff (all data sets with distinct field names, all options): the file-mode exit code is 0 iff both "
+             "inputs are readable field data, domains equal, every selected common field passes DefaultEquality with the tolerance "
+             "that applies to it (per-field, else last global, else default; proved not to leak between fields; integers/strings stay "
+             "exact under any global tolerance), and one-sided fields occur only under the matching ignore flag; every read error, "
+             "exception, predicate error or kind mismatch gives a non-zero code. Tied to fieldcompare._cli.main by T1 status tables "
+             "and differential runs on edited CSV/.vtu pairs under random option combinations.",
+        note=TB + "Reading is an oracle (the exception class observed per file is given to the model); argparse is not modelled; mesh "
+             "domain equality of generated pairs is by construction (C02/C03 cover the mesh ladder).",
+        technique="Coq proof of the CLI decision model + model/implementation correspondence on exit codes", ref="7 (C04)"),
 }
 
 ALL = [f"C{i:02d}" for i in range(1, 21)]
